@@ -41,6 +41,9 @@ pub struct Machine {
     pub polled_at: usize,
     pub ended: bool,
     pub polls: usize,
+    /// the embedder's handles on the shared storage and app set (what StateMachineBuilder is given)
+    pub storage: Rc<AMutex<SimStorage>>,
+    pub app_set: Rc<AMutex<SimAppSet>>,
 }
 
 pub fn state_view(s: &State) -> StateView {
@@ -130,7 +133,7 @@ impl omaha_client::http_request::HttpRequest for AnyHttp {
 fn builder(
     w: &W,
     http: Option<Box<dyn omaha_client::http_request::HttpRequest>>,
-) -> StateMachineBuilder<SimPolicy, AnyHttp, SimInstaller, SimTimer, SimMetrics, SimStorage, SimAppSet, StandardCupv2Handler> {
+) -> (StateMachineBuilder<SimPolicy, AnyHttp, SimInstaller, SimTimer, SimMetrics, SimStorage, SimAppSet, StandardCupv2Handler>, Rc<AMutex<SimStorage>>, Rc<AMutex<SimAppSet>>) {
     let (config, apps, system, cup) = {
         let g = lock(w);
         (
@@ -140,7 +143,9 @@ fn builder(
             g.script.cup.clone().map(|c| StandardCupv2Handler::new(&cupref::public_keys(c.keys[0], &c.keys[1..]))),
         )
     };
-    StateMachineBuilder::new(
+    let storage = Rc::new(AMutex::new(SimStorage(w.clone())));
+    let app_set = Rc::new(AMutex::new(SimAppSet { apps, system }));
+    let b = StateMachineBuilder::new(
         SimPolicy(w.clone(), SimTime(w.clone())),
         match http {
             Some(h) => AnyHttp::Custom(h),
@@ -149,11 +154,12 @@ fn builder(
         SimInstaller(w.clone()),
         SimTimer(w.clone()),
         SimMetrics(w.clone()),
-        Rc::new(AMutex::new(SimStorage(w.clone()))),
+        storage.clone(),
         config,
-        Rc::new(AMutex::new(SimAppSet { apps, system })),
+        app_set.clone(),
         cup,
-    )
+    );
+    (b, storage, app_set)
 }
 
 impl Machine {
@@ -172,14 +178,14 @@ impl Machine {
             g.gates.clear();
             g.log.push(Op::Build { life, oneshot });
         }
-        let b = builder(w, http);
+        let (b, storage, app_set) = builder(w, http);
         let (ctl, stream): (Option<ControlHandle>, EventStream) = if oneshot {
             (None, Box::pin(futures::executor::block_on(b.oneshot_check())))
         } else {
             let (c, s) = futures::executor::block_on(b.start());
             (Some(c), Box::pin(s))
         };
-        Machine { w: w.clone(), stream: Some(stream), ctl, root: Arc::new(Wk(AtomicUsize::new(1))), polled_at: 0, ended: false, polls: 0 }
+        Machine { w: w.clone(), stream: Some(stream), ctl, root: Arc::new(Wk(AtomicUsize::new(1))), polled_at: 0, ended: false, polls: 0, storage, app_set }
     }
 
     pub fn woken(&self) -> bool {
@@ -208,6 +214,14 @@ impl Machine {
                         return Some(v);
                     }
                     g.log.push(Op::Took(v.clone()));
+                    // the generator is now suspended inside this emission until the consumer polls again: an embedder
+                    // that locks the shared app set or storage between two polls must not find them locked
+                    if self.app_set.try_lock().is_none() {
+                        g.log.push(Op::LockHeldAtEmission { which: "app set" });
+                    }
+                    if self.storage.try_lock().is_none() {
+                        g.log.push(Op::LockHeldAtEmission { which: "storage" });
+                    }
                 }
                 // Ready(Some) owes no wake-up: the consumer may poll again at will
                 self.root.0.fetch_add(1, Ordering::SeqCst);
